@@ -32,11 +32,13 @@ def fanout(binary, cmds, tag):
         raise C.HarnessError("parsesim fanout failed: " + p.stderr.decode(errors="replace")[-2000:])
     out = []
     cur = None
+    idx = -1
     for line in p.stdout.decode("utf-8", errors="replace").split("\n"):
         if line == "TIMEOUT":
-            raise C.HarnessError("a runner did not come back within 120 s (normal: milliseconds). Termination is not judged by this check; "
-                                 "command list %s" % tag)
+            raise C.HarnessError("a runner did not come back within 900 s (normal: milliseconds to a few seconds). Termination is not judged by this check; "
+                                 "command: %s" % (" ".join(cmds[idx])[:300] if 0 <= idx < len(cmds) else tag))
         if line.startswith("BEGIN "):
+            idx = int(line.split(" ")[1])
             cur = []
         elif line.startswith("END "):
             _, i, code = line.split(" ")
